@@ -127,7 +127,16 @@ def run():
             ck.violation("model of EscapeQuotedString differs from sqlparser's Display", {"kind": "model-vs-sqlparser", "s": s, "model": s_of(m[0]), "impl": emitted[i]})
         for d, f in fam.items():
             ck.count("sqllex-model", d + "|" + s, nontrivial=("'" in s or "\\" in s))
-            if canon_model(m[f]) != tok_by[d][i]:
+            mm, ii = canon_model(m[f]), tok_by[d][i]
+            clean = not f6_value(s) and (f == 1 or "\\" not in s)
+            if clean:
+                differ = mm != ii
+            else:
+                # inside the known classes the text after the early end of the literal is arbitrary SQL, where the
+                # tokenizers have dialect quirks of their own (-- needs a space in MySQL, %-- is an operator for
+                # sqlparser's postgres, emoji are no identifier characters): compare what matters, the string token
+                differ = bool(mm and ii and mm[0][0] == 1 and ii[0][0] == 1 and mm[0] != ii[0]) or ((mm == [(1, s)]) != (ii == [(1, s)]))
+            if differ:
                 ck.violation("SQL lexer model differs from sqlparser's %s tokenizer" % d,
                              {"kind": "lexmodel-vs-sqlparser", "dialect": d, "s": s, "text": emitted[i], "model": canon_model(m[f]), "impl": tok_by[d][i]})
         # the known class is exact: the round trip fails iff the value is in it (standard family)
